@@ -135,3 +135,56 @@ def dst_env(rng, n, base_s, p=0.1):
     start = target - int(rng.random() * max(1, n) * base_s)
     start -= start % base_s
     return zone, start
+
+
+def inject_shapes(rng, rows):
+    """Rewrites a few candles of `rows` (lists [ts, o, h, l, c, v], modified IN PLACE) into candlestick-pattern
+    shapes - hammer, inverted hammer, doji, doji star - with proportions drawn AROUND the thresholds the pattern
+    functions use (fractions of the average high-low range of the ten candles before), sometimes preceded by a
+    block of completely flat candles.  Random walks almost never produce these shapes, so without this the pattern
+    functions mostly answer False.  Returns the number of shapes written."""
+    n, done = len(rows), 0
+    if n < 14:
+        return 0
+    for _ in range(rng.randint(1, 3)):
+        i = rng.randint(11, n - 1)
+        if rng.random() < 0.35:
+            k = rng.randint(5, 7)
+            if i - k >= 1:
+                base = rows[i - k - 1][4]
+                for j in range(i - k, i):
+                    rows[j][1:5] = [base, base, base, base]
+        prev = rows[i - 1]
+        spans = [r[2] - r[3] for r in rows[max(0, i - 10):i]]
+        avg = sum(spans) / len(spans)
+        if avg <= 0:
+            avg = rng.choice((0.5, 1.0, 2.0))
+        kind = rng.choice(("hammer", "hammer", "inverted_hammer", "doji", "dojistar"))
+        u = rng.uniform
+        if kind == "hammer":
+            body, lower, upper = avg * u(0, 0.2), avg * u(0.8, 2.5), avg * u(0, 0.08)
+            bottom = prev[3] + avg * u(-0.4, 0.5)
+        elif kind == "inverted_hammer":
+            body, lower, upper = avg * u(0, 0.2), avg * u(0, 0.08), avg * u(0.8, 2.5)
+            bottom = min(prev[1], prev[4]) - body - avg * u(-0.1, 0.5)
+        else:
+            body, lower, upper = avg * u(0, 0.15), avg * u(0, 0.6), avg * u(0, 0.6)
+            if kind == "dojistar":
+                long_body = avg * u(0.8, 2.0)
+                up = rng.random() < 0.5
+                o = prev[1]
+                c = o + long_body if up else o - long_body
+                if min(o, c) - avg <= 0:
+                    continue
+                prev[1:5] = [round(o, 4), round(max(o, c) + avg * u(0, 0.2), 4), round(min(o, c) - avg * u(0, 0.2), 4), round(c, 4)]
+                bottom = (max(o, c) + avg * u(-0.1, 0.4)) if up else (min(o, c) - body - avg * u(-0.1, 0.4))
+            else:
+                bottom = prev[4] + avg * u(-0.5, 0.5)
+        top = bottom + body
+        low, high = bottom - lower, top + upper
+        if low <= 0:
+            continue
+        o, c = (bottom, top) if rng.random() < 0.5 else (top, bottom)
+        rows[i][1:5] = [round(o, 4), round(high, 4), round(low, 4), round(c, 4)]
+        done += 1
+    return done
